@@ -100,7 +100,7 @@ def generate(tier, seed):
                                profile={"dates": 0.6, "optional": 0.35})
         cases.append({"cid": f"mix-grid-{i}", "family": "mixture", "kind": "grid", "spec": spec, "wide": True,
                       "limit": 40 if tier == "quick" else 120, "rng": i, "skip_foreign_invalid": True})
-        for j, cfg in enumerate(({}, {"random_values": True}, {"logics": "QF_LIA"})):
+        for j, cfg in enumerate(({}, {"random_values": True}, {"random_values": True})):
             cases.append({"cid": f"mix-free-{i}-{j}", "family": "mixture-free", "kind": "solve", "spec": spec,
                           "plan": {"solver": cfg, "py_seed": seed + i}})
     return cases
